@@ -457,3 +457,64 @@ func (c *Ctx) tableLen(g *ssa.Global) (int64, bool) {
 	}
 	return n, found == 1
 }
+
+// tableRange: smallest and largest element of a package-level integer table as its initialiser
+// (a slice or array literal of constants) fills it.
+func (c *Ctx) tableRange(g *ssa.Global) (lo, hi int64, ok bool) {
+	if g.Pkg == nil {
+		return 0, 0, false
+	}
+	init := g.Pkg.Func("init")
+	if init == nil {
+		return 0, 0, false
+	}
+	// the array the literal is built in: stored into g as a slice of it, or g itself (array global)
+	var base ssa.Value = g
+	for _, b := range init.Blocks {
+		for _, in := range b.Instrs {
+			if st, isSt := in.(*ssa.Store); isSt && st.Addr == ssa.Value(g) {
+				if sl, isSl := st.Val.(*ssa.Slice); isSl {
+					base = sl.X
+				}
+			}
+		}
+	}
+	n := 0
+	for _, b := range init.Blocks {
+		for _, in := range b.Instrs {
+			st, isSt := in.(*ssa.Store)
+			if !isSt {
+				continue
+			}
+			ia, isIA := st.Addr.(*ssa.IndexAddr)
+			if !isIA || ia.X != base {
+				continue
+			}
+			k, isK := constInt(st.Val)
+			if !isK {
+				return 0, 0, false
+			}
+			if n == 0 || k < lo {
+				lo = k
+			}
+			if n == 0 || k > hi {
+				hi = k
+			}
+			n++
+		}
+	}
+	// elements the literal leaves out are zero
+	if n > 0 {
+		if pt, isP := base.Type().Underlying().(*types.Pointer); isP {
+			if arr, isArr := pt.Elem().Underlying().(*types.Array); isArr && int64(n) < arr.Len() {
+				if lo > 0 {
+					lo = 0
+				}
+				if hi < 0 {
+					hi = 0
+				}
+			}
+		}
+	}
+	return lo, hi, n > 0
+}
